@@ -96,21 +96,19 @@ func bracesSeqRec(word *syntax.Word, yield func(*syntax.Word) bool) bool {
 				width = max(len(fromLit), len(toLit))
 			}
 			upward := from <= to
-			incr := int64(1)
+			step := uint64(1)
 			if len(br.Elems) > 2 {
 				// ParseInt with bit size 64 to ensure consistent behavior on 32-bit platforms.
 				n, _ := strconv.ParseInt(br.Elems[2].Lit(), 10, 64)
+				// only the absolute value of the step matters;
+				// note that -MinInt64 wraps around to 1<<63 as a uint64, as wanted.
 				if n < 0 {
-					n = -n // only the absolute value of the step matters
-				}
-				if n != 0 {
-					incr = n
+					step = uint64(-n)
+				} else if n > 0 {
+					step = uint64(n)
 				}
 			}
-			if !upward {
-				incr = -incr
-			}
-			for n := from; (upward && n <= to) || (!upward && n >= to); n += incr {
+			for n := from; ; {
 				next := *word
 				lit := &syntax.Lit{}
 				switch {
@@ -124,6 +122,20 @@ func bracesSeqRec(word *syntax.Word, yield func(*syntax.Word) bool) bool {
 				next.Parts = append([]syntax.WordPart{lit}, rest...)
 				if !expand(&next) {
 					return false
+				}
+				// Stop once the next step would go past the end.
+				// Comparing the remaining distance as unsigned integers
+				// avoids overflows with endpoints near the int64 limits.
+				if upward {
+					if uint64(to)-uint64(n) < step {
+						break
+					}
+					n += int64(step)
+				} else {
+					if uint64(n)-uint64(to) < step {
+						break
+					}
+					n -= int64(step)
 				}
 			}
 			return true
